@@ -7,6 +7,8 @@ package main
 import (
 	"flag"
 	"fmt"
+	"github.com/itchio/lake"
+	"github.com/itchio/lake/tlc"
 	"os"
 	"path/filepath"
 
@@ -14,26 +16,26 @@ import (
 )
 
 type pairLine struct {
-	Case    int      `json:"case"`
-	Desc    string   `json:"desc"`
-	Env     string   `json:"env"` // environment of the diff (reader behaviour, origin of the old signature)
-	Algo    string   `json:"algo"`
-	Q       int32    `json:"q"`
-	TSizes  []int64  `json:"tsizes"`
-	SSizes  []int64  `json:"ssizes"`
-	TPaths  []string `json:"tpaths"`
-	SPaths  []string `json:"spaths"`
-	Msgs    []opFact `json:"msgs"`
-	Decoded bool     `json:"decoded"` // the independent decoder consumed the stream exactly
-	DecErr  string   `json:"decerr"`
-	Fresh   int64    `json:"fresh"`
-	Reused  int64    `json:"reused"`
-	DiffErr string   `json:"differr"`
-	ApplyErr string  `json:"applyerr"`
-	Out     []string `json:"out"`
-	New     []string `json:"new"`
-	PatchLen int     `json:"patchlen"`
-	PrePopulated bool `json:"prepopulated"`
+	Case         int      `json:"case"`
+	Desc         string   `json:"desc"`
+	Env          string   `json:"env"` // environment of the diff (reader behaviour, origin of the old signature)
+	Algo         string   `json:"algo"`
+	Q            int32    `json:"q"`
+	TSizes       []int64  `json:"tsizes"`
+	SSizes       []int64  `json:"ssizes"`
+	TPaths       []string `json:"tpaths"`
+	SPaths       []string `json:"spaths"`
+	Msgs         []opFact `json:"msgs"`
+	Decoded      bool     `json:"decoded"` // the independent decoder consumed the stream exactly
+	DecErr       string   `json:"decerr"`
+	Fresh        int64    `json:"fresh"`
+	Reused       int64    `json:"reused"`
+	DiffErr      string   `json:"differr"`
+	ApplyErr     string   `json:"applyerr"`
+	Out          []string `json:"out"`
+	New          []string `json:"new"`
+	PatchLen     int      `json:"patchlen"`
+	PrePopulated bool     `json:"prepopulated"`
 }
 
 type compSetting struct {
@@ -117,7 +119,13 @@ func cmdC01(args []string) error {
 					}
 				}
 			}
-			ar := realApplyPatch(dr.Patch, applyOpts{Bowl: "fresh", OldDir: oldDir, OutDir: outDir})
+			ao := applyOpts{Bowl: "fresh", OldDir: oldDir, OutDir: outDir}
+			if (k+ci)%3 == 1 {
+				// the OLD build too may be served by readers that return their last bytes with io.EOF
+				ao.WrapPool = func(p lake.Pool, _ *tlc.Container) lake.Pool { return &eofPool{Pool: p} }
+				line.Env += " oldEOF=true"
+			}
+			ar := realApplyPatch(dr.Patch, ao)
 			if ar.Err != nil {
 				line.ApplyErr = ar.Err.Error()
 			}
